@@ -719,10 +719,12 @@ Proof.
   - apply sim_ret. reflexivity.
   - apply sim_ret. reflexivity.
   - (* PBlobDef *)
+    destruct H as [Hc Hsn].
     eapply sim_bind; [apply sim_lookup; eassumption|]. intros v v' <-.
     eapply sim_bind; [apply sim_fields; eassumption|]. intros x x' <-.
     apply sim_ret. reflexivity.
   - (* PEnumDef *)
+    destruct H as [Hc Hsn].
     eapply sim_bind; [apply sim_lookup; eassumption|]. intros v v' <-.
     eapply sim_bind; [apply sim_fields; eassumption|]. intros x x' <-.
     apply sim_ret. reflexivity.
@@ -793,5 +795,248 @@ Proof.
 Qed.
 
 End Step.
+
+Lemma sim_all : forall f, Se f /\ Sa f /\ Ss f.
+Proof.
+  induction f as [|f (IHe & IHa & IHs)].
+  - repeat split; intros G x x' G1 _ st st' _; exact I.
+  - split; [apply step_e|split; [apply step_a|apply step_s]]; assumption.
+Qed.
+
+(* ---------------------------------------------------------------------------------------------- *)
+(* the two namespace passes *)
+
+Record Rp (st st' : rstate) : Prop := mkRp {
+  rp_stack : st_stack st = [] /\ st_stack st' = [];
+  rp_next : st_next st = st_next st';
+  rp_vars : map erase_var (st_vars st) = map erase_var (st_vars st');
+  rp_n2f : st_n2f st' = st_n2f st;
+  rp_ns : st_ns st' = nss_map (st_ns st)
+}.
+
+Definition rel_p {A} (ra : A -> A -> Prop) (r r' : res (A * rstate)) : Prop :=
+  match r, r' with
+  | Ok (a, s), Ok (a', s') => ra a a' /\ Rp s s'
+  | Err e, Err e' => e = e'
+  | Panic _, Panic _ => True
+  | OutOfFuel, OutOfFuel => True
+  | _, _ => False
+  end.
+
+Lemma relp_bind {A B} (ra : A -> A -> Prop) (rb : B -> B -> Prop) (m m' : M A) (k k' : A -> M B) st st' :
+  rel_p ra (m st) (m' st') ->
+  (forall a a' s s', ra a a' -> Rp s s' -> rel_p rb (k a s) (k' a' s')) ->
+  rel_p rb (bind m k st) (bind m' k' st').
+Proof.
+  intros Hm Hk. unfold bind, rel_p in *.
+  destruct (m st) as [[a s1]| | |], (m' st') as [[a' s1']| | |]; try contradiction; auto.
+  destruct Hm. apply Hk; assumption.
+Qed.
+
+Lemma defined_ident_rel s s' :
+  alpha_s [] s s' [] ->
+  match defined_ident s, defined_ident s' with
+  | Some (i, k), Some (i', k') => g (i_name i) = i_name i' /\ i_span i = i_span i' /\ k = k'
+  | None, None => True
+  | _, _ => False
+  end /\ pstmt_span s = pstmt_span s'.
+Proof.
+  intros H. inversion H; subst; cbn; auto;
+    try (match goal with Hx : Alpha.id_ref _ [] _ _ |- _ =>
+           destruct Hx as [Hc Hs]; cbn in Hc; apply String.eqb_eq in Hc; auto end);
+    try (match goal with Hx : Alpha.id_glob _ _ _ |- _ => destruct Hx; auto end);
+    try (exfalso; match goal with Hx : [] <> [] |- _ => apply Hx; reflexivity end).
+Qed.
+
+Lemma add_definitions_rel ss ss' :
+  Forall2 (fun s s' => alpha_s [] s s' []) ss ss' ->
+  forall t st st', Rp st st' ->
+  rel_p (fun t1 t1' => t1' = ns_map t1) (add_definitions ss t st) (add_definitions ss' (ns_map t) st').
+Proof.
+  induction 1 as [|s s' ss ss' Hs _ IH]; intros t st st' HR; cbn [add_definitions].
+  - cbn. auto.
+  - destruct (defined_ident_rel _ _ Hs) as [Hd Hsp].
+    destruct (defined_ident s) as [[i k]|], (defined_ident s') as [[i' k']|]; try contradiction; [|apply IH; assumption].
+    destruct Hd as (Hg & Hsi & <-). unfold bind, new_global, new_var_g.
+    destruct HR as [[S1 S2] Hn Hv Hf Hns]. rewrite <- Hn.
+    rewrite <- Hg, ns_get_map. destruct (ns_get t (i_name i)).
+    + cbn. rewrite Hsp. reflexivity.
+    + change ((g (i_name i), NName (st_next st)) :: ns_map t) with (ns_map ((i_name i, NName (st_next st)) :: t)).
+      apply IH. constructor; cbn; auto. unfold erase_var at 1 3. cbn. rewrite Hsi, Hv. reflexivity.
+Qed.
+
+Lemma fol_set_map l f t : fol_set (nss_map l) f (ns_map t) = nss_map (fol_set l f t).
+Proof.
+  unfold nss_map. induction l as [|[k v] l IH]; cbn; [reflexivity|].
+  destruct (fol_eqb f k); cbn; [reflexivity|]. f_equal. exact IH.
+Qed.
+
+Lemma pass1_rel p p' :
+  Forall2 (alpha_module fl g is_ns sure_ns) p p' ->
+  forall st st', Rp st st' ->
+  rel_p (fun _ _ => True) (for_each insert_namespace_and_add_definitions p st)
+        (for_each insert_namespace_and_add_definitions p' st').
+Proof.
+  induction 1 as [|m m' p p' (Hf & Hid & Hss) _ IH]; intros st st' HR; cbn [for_each].
+  - cbn. auto.
+  - eapply relp_bind with (ra := fun _ _ : unit => True).
+    + unfold insert_namespace_and_add_definitions. eapply relp_bind.
+      * pose proof (add_definitions_rel _ _ Hss [] st st' HR) as Ha. cbn [ns_map map] in Ha. exact Ha.
+      * intros t1 t1' s1 s1' -> [[S1 S2] Hn Hv Hn2 Hns]. unfold set_namespace. cbn.
+        split; [exact I|]. constructor; cbn; auto. rewrite Hns, <- Hf. apply fol_set_map.
+    + intros _ _ s1 s1' _ HR1. apply IH. assumption.
+Qed.
+
+Lemma import_name_rel f nm nm' v k sp st st' :
+  g nm = nm' -> Rp st st' ->
+  rel_p (fun _ _ => True) (import_name f nm v k sp st) (import_name f nm' v k sp st').
+Proof.
+  intros <- [[S1 S2] Hn Hv Hn2 Hns]. unfold import_name. rewrite Hns, fol_get_map.
+  destruct (fol_get (st_ns st) f) as [t|]; cbn; [|exact I].
+  rewrite ns_get_map. destruct (ns_get t nm) as [old|].
+  - destruct (name_eqb old v); cbn; [|reflexivity]. split; [exact I|]. constructor; auto.
+  - unfold set_namespace. cbn. split; [exact I|]. constructor; cbn; auto.
+    rewrite Hns. change ((g nm, v) :: ns_map t) with (ns_map ((nm, v) :: t)). apply fol_set_map.
+Qed.
+
+Lemma from_imports_rel f file sp imps imps' :
+  Forall2 (fun p p' => id_glob (fst p) (fst p') /\
+                       match snd p, snd p' with
+                       | None, None => True
+                       | Some a, Some a' => id_glob a a'
+                       | _, _ => False
+                       end) imps imps' ->
+  forall st st', Rp st st' ->
+  rel_p (fun _ _ => True) (from_imports f file sp imps st) (from_imports f file sp imps' st').
+Proof.
+  induction 1 as [|[nm al] [nm' al'] l l' [[Hg Hs] Ha] _ IH]; intros st st' HR; cbn [from_imports].
+  - cbn. auto.
+  - cbn [fst snd] in *.
+    assert (Hy : g (i_name match al with Some a => a | None => nm end) = i_name match al' with Some a => a | None => nm' end
+                 /\ i_span match al with Some a => a | None => nm end = i_span match al' with Some a => a | None => nm' end).
+    { destruct al, al'; try contradiction; [destruct Ha; auto|auto]. }
+    destruct Hy as [Hy1 Hy2].
+    eapply relp_bind with (ra := fun o o' => o' = option_map ns_map o).
+    + unfold get_ns. cbn. rewrite (rp_ns _ _ HR), fol_get_map. auto.
+    + intros o o' s1 s1' -> HR1. destruct o as [from_ns|]; cbn [option_map]; [|cbn; reflexivity].
+      rewrite <- Hg, ns_get_map. destruct (ns_get from_ns (i_name nm)) as [v|]; [|cbn; rewrite Hs; reflexivity].
+      eapply relp_bind with (ra := fun _ _ : unit => True).
+      * rewrite <- Hy2. apply import_name_rel; eassumption.
+      * intros _ _ s2 s2' _ HR2. apply IH. assumption.
+Qed.
+
+Lemma pass2_module_rel f ss ss' :
+  Forall2 (fun s s' => alpha_s [] s s' []) ss ss' ->
+  forall st st', Rp st st' ->
+  rel_p (fun _ _ => True) (resolve_global_variables f ss st) (resolve_global_variables f ss' st').
+Proof.
+  induction 1 as [|s s' ss ss' Hs _ IH]; intros st st' HR; cbn [resolve_global_variables].
+  - cbn. auto.
+  - eapply relp_bind with (ra := fun _ _ : unit => True); [|intros _ _ s1 s1' _ HR1; apply IH; assumption].
+    inversion Hs; subst; try (cbn; auto; fail).
+    + (* use *)
+      assert (Hi : id_glob (usename_ident nm) (usename_ident nm')) by (destruct nm, nm'; try contradiction; assumption).
+      destruct Hi as [Hg Hsp]. cbn zeta.
+      eapply relp_bind with (ra := fun o o' => o' = option_map ns_map o).
+      * unfold get_ns. cbn. rewrite (rp_ns _ _ HR), fol_get_map. auto.
+      * intros o o' s1 s1' -> HR1. destruct o; cbn [option_map].
+        -- rewrite <- Hsp. apply import_name_rel; assumption.
+        -- cbn. rewrite Hsp. reflexivity.
+    + (* from use *) apply from_imports_rel; assumption.
+Qed.
+
+Lemma pass2_rel p p' :
+  Forall2 (alpha_module fl g is_ns sure_ns) p p' ->
+  forall st st', Rp st st' ->
+  rel_p (fun _ _ => True)
+        (for_each (fun m => resolve_global_variables (m_file m) (m_stmts m)) p st)
+        (for_each (fun m => resolve_global_variables (m_file m) (m_stmts m)) p' st').
+Proof.
+  induction 1 as [|m m' p p' (Hf & Hid & Hss) _ IH]; intros st st' HR; cbn [for_each].
+  - cbn. auto.
+  - eapply relp_bind with (ra := fun _ _ : unit => True); [|intros _ _ s1 s1' _ HR1; apply IH; assumption].
+    rewrite <- Hf. apply pass2_module_rel; assumption.
+Qed.
+
+(* ---------------------------------------------------------------------------------------------- *)
+(* whole programs *)
+
+Hypothesis g_start : g "start" = "start".
+
+(* the state after the two namespace passes *)
+Definition passes (ast : past) : res (unit * rstate) :=
+  (_ <- for_each insert_namespace_and_add_definitions ast ;;
+   for_each (fun m => resolve_global_variables (m_file m) (m_stmts m)) ast) (init_state ast).
+
+(* `is_ns` over-approximates the namespace names of every file; `sure_ns` under-approximates the
+   namespace paths *)
+Definition ns_sound (st : rstate) : Prop :=
+  forall fid x f sp, lookup_global st fid x = Ok (Some (NNamespace f sp)) -> is_ns fid x = true.
+Definition sure_sound (st : rstate) : Prop :=
+  forall fid a, sure_ns fid a = true -> exists ns, namespace_list st fid a = Ok (Some ns).
+
+Definition res_rel (r r' : res resolved) : Prop :=
+  match r, r' with
+  | Ok x, Ok x' => erase x = erase x'
+  | Err e, Err e' => e = e'
+  | Panic _, Panic _ => True
+  | OutOfFuel, OutOfFuel => True
+  | _, _ => False
+  end.
+
+Lemma thread_flat p p' :
+  Forall2 (alpha_module fl g is_ns sure_ns) p p' ->
+  thread alpha_s [] (flat_map m_stmts p) (flat_map m_stmts p') [].
+Proof.
+  induction 1 as [|m m' p p' (_ & _ & Hss) _ IH]; cbn; [constructor|].
+  induction Hss as [|s s' l l' Hs _ IHl]; cbn; [exact IH|]. econstructor; eauto.
+Qed.
+
+Lemma init_Rp p p' : Forall2 (alpha_module fl g is_ns sure_ns) p p' -> Rp (init_state p) (init_state p').
+Proof.
+  intros H. constructor; cbn; auto.
+  induction H as [|m m' p p' (Hf & Hid & _) _ IH]; cbn; [reflexivity|]. rewrite Hf, Hid, IH. reflexivity.
+Qed.
+
+Theorem alpha_resolve_fuel fuel p p' :
+  alpha_ast fl g is_ns sure_ns p p' ->
+  (forall st, passes p = Ok (tt, st) -> ns_sound st /\ sure_sound st) ->
+  (forall st, passes p' = Ok (tt, st) -> ns_sound st) ->
+  res_rel (resolve_fuel fl fuel p) (resolve_fuel fl fuel p').
+Proof.
+  intros Ha Hs Hs'. unfold alpha_ast in Ha.
+  pose proof (pass1_rel _ _ Ha _ _ (init_Rp _ _ Ha)) as H1.
+  unfold resolve_fuel, resolve_m, passes in *. unfold bind at 1 5. unfold bind in Hs at 1. unfold bind in Hs' at 1.
+  destruct (for_each insert_namespace_and_add_definitions p (init_state p)) as [[[] s1]| | |],
+           (for_each insert_namespace_and_add_definitions p' (init_state p')) as [[[] s1']| | |];
+    try contradiction; cbn [rel_p res_rel] in *; auto.
+  destruct H1 as [_ HR1]. pose proof (pass2_rel _ _ Ha _ _ HR1) as H2.
+  unfold bind at 1 4.
+  destruct (for_each (fun m => resolve_global_variables (m_file m) (m_stmts m)) p s1) as [[[] s2]| | |],
+           (for_each (fun m => resolve_global_variables (m_file m) (m_stmts m)) p' s1') as [[[] s2']| | |];
+    try contradiction; cbn [rel_p res_rel] in *; auto.
+  destruct H2 as [_ [[S1 S2] Hn Hv Hn2 Hns]].
+  destruct (Hs _ eq_refl) as [Hsound Hsure]. pose proof (Hs' _ eq_refl) as Hsound'.
+  assert (HR : R [] s2 s2').
+  { constructor; [rewrite S1; reflexivity|rewrite S2; reflexivity|rewrite S1, S2; reflexivity|exact Hn|exact Hv|].
+    constructor; assumption. }
+  pose proof (sim_block (stmt_r fl fuel) (proj2 (proj2 (sim_all fuel))) _ _ _ _ (thread_flat _ _ Ha) _ _ HR) as Hb.
+  unfold bind at 1 3.
+  destruct (block_with (stmt_r fl fuel) (flat_map m_stmts p) s2) as [[out s3]| | |],
+           (block_with (stmt_r fl fuel) (flat_map m_stmts p') s2') as [[out' s3']| | |];
+    try contradiction; cbn [rel_res res_rel] in *; auto.
+  destruct Hb as [Hout HR3]. unfold bind, lift.
+  rewrite <- (lookup_global_rel s3 s3' 0%N "start" (r_gr _ _ _ HR3)), g_start.
+  destruct (lookup_global s3' 0 "start") as [[nm|]| | |]; cbn; auto.
+  unfold erase. cbn. rewrite !map_rev, (r_vars _ _ _ HR3). unfold Rl in Hout. rewrite Hout. reflexivity.
+Qed.
+
+(* the same for `resolve`, whose fuel is computed from the program *)
+Corollary alpha_resolve p p' :
+  alpha_ast fl g is_ns sure_ns p p' -> fuel_of p = fuel_of p' ->
+  (forall st, passes p = Ok (tt, st) -> ns_sound st /\ sure_sound st) ->
+  (forall st, passes p' = Ok (tt, st) -> ns_sound st) ->
+  res_rel (resolve fl p) (resolve fl p').
+Proof. intros Ha Hf Hs Hs'. unfold resolve. rewrite <- Hf. apply alpha_resolve_fuel; assumption. Qed.
 
 End Sim.
